@@ -518,6 +518,34 @@ pub fn main(args: &[String]) {
             st.names += 1;
             roundtrip(&default_header(), &groups_with_name(&name), "long_name", &name, &mut agg, &mut st, false);
         }
+        // 1c. several directories in ONE report whose names differ only in bytes that are not valid UTF-8 (or are
+        // the replacement character itself): every path must come back as written
+        {
+            let odd: Vec<Vec<u8>> = vec![vec![0xff], vec![0xfe], "\u{fffd}".as_bytes().to_vec(), vec![0xc3], b"a".to_vec()];
+            for x in &odd {
+                for y in &odd {
+                    if x == y || !mine() {
+                        continue;
+                    }
+                    let mk = |d: &[u8], f: &[u8]| {
+                        let mut p = b"/d".to_vec();
+                        p.extend_from_slice(d);
+                        p.push(b'/');
+                        p.extend_from_slice(f);
+                        path_of(&p)
+                    };
+                    let groups: Groups = vec![
+                        FileGroup { file_len: FileLen(7), file_hash: hash_of(16, 1), files: vec![mk(x, b"f"), mk(y, b"f")] },
+                        FileGroup { file_len: FileLen(3), file_hash: hash_of(16, 2), files: vec![mk(y, b"g"), mk(x, b"g"), mk(x, b"h")] },
+                    ];
+                    let mut subject = x.clone();
+                    subject.push(b'|');
+                    subject.extend_from_slice(y);
+                    st.names += 1;
+                    roundtrip(&default_header(), &groups, "sibling_dirs", &subject, &mut agg, &mut st, false);
+                }
+            }
+        }
         // 2. shapes x lengths x hash sizes
         for shape in [(1usize, 1usize), (1, 2), (2, 2), (3, 1), (0, 0)] {
             for flen in [0u64, 1, 1 << 40] {
